@@ -11,7 +11,7 @@ Line protocol of the C19 model driver (one output line per input line):
   call  guarded|bare <plan>   an arbitrary RPC method: `[checkOpen, io]` resp. `[io]`
   isopen                                                                          → `0` / `1`
 
-<plan> is `-` (no fault) or `<k>:<kind>` (the k-th fault point of this call raises <kind>).
+<plan> is `-` (no fault) or `<k>:<kind>[,<k>:<kind>…]` (these fault points of this call raise <kind>).
 Fault counter, trace and I/O log are per call.
 -/
 
@@ -36,15 +36,23 @@ def kindToString : Kind → String
   | .other => "other"
   | .invalidOp => "invalidOp"
 
-/-- `some none` = no fault, `none` = unparsable -/
-def parsePlan (s : String) : Option Plan :=
-  if s == "-" then some none else
+/-- one plan entry `<k>:<kind>` -/
+def parseEntry (s : String) : Option (Nat × Kind) :=
   match s.splitOn ":" with
   | [k, kd] =>
     match k.toNat?, kindOfString kd with
-    | some k, some κ => some (some (k, κ))
+    | some k, some κ => some (k, κ)
     | _, _ => none
   | _ => none
+
+/-- `-` = no fault; `<k>:<kind>[,<k>:<kind>…]` = these fault points raise; `none` = unparsable -/
+def parsePlan (s : String) : Option Plan :=
+  if s == "-" then some noFault else
+  let es := (s.splitOn ",").map parseEntry
+  if es.all Option.isSome then
+    let l := es.filterMap id
+    some (fun c => (l.find? (fun e => e.1 == c)).map (·.2))
+  else none
 
 def insertSorted (x : Nat) : List Nat → List Nat
   | [] => [x]
@@ -63,9 +71,6 @@ def showRes : Res → String
 def report (r : St × Res) : String :=
   s!"res={showRes r.2} flag={if r.1.instrOpen then 1 else 0} links={showList (sortNat r.1.links)} " ++
   s!"trace={showList r.1.trace.reverse} io={showList r.1.ioLog.reverse}"
-
-/-- start of a call: per-call counters cleared, flag and links kept -/
-def fresh (s : St) : St := { s with ioLog := [], trace := [], cnt := 0 }
 
 def runCall (d : DS) (p : Prog) (plan : String) : DS × String :=
   match parsePlan plan with
